@@ -40,6 +40,10 @@ type probe struct {
 	// drops one more probe with a valid mark but a random MAC -- which must not
 	// cost the genuine handshake its place
 	forged bool
+	// traffic: (replay probes) the genuine session is used before it ends -- the
+	// client sends exactly as many bytes again as its handshake had, which the
+	// server reads into the buffers the handshake was parsed from
+	traffic bool
 	// validLen: for "extended" probes, the length of the embedded valid handshake
 	validLen int
 }
@@ -163,6 +167,7 @@ func probes(thorough bool) []probe {
 	// handshake built around it with the right MAC is simply valid)
 	ps = append(ps, probe{name: "replay", replay: true})
 	ps = append(ps, probe{name: "replay/busy-bridge", replay: true, busy: true})
+	ps = append(ps, probe{name: "replay/after-session-traffic", replay: true, traffic: true})
 	ps = append(ps, probe{name: "replay/nearly-full-bridge-after-a-forged-probe", replay: true, forged: true})
 	return ps
 }
@@ -234,6 +239,9 @@ func (t trace) String() string {
 // busyUnavailable: the last runProbe could not set up the busy-bridge probe.
 var busyUnavailable bool
 
+// preTraffic: see probe.traffic.
+var preTraffic bool
+
 func runProbe(c *mc.Ctx, br *o4h.Bridge, sf base.ServerFactory, blob []byte, d delivery, pre []byte, pre2 []byte, forged []byte) trace {
 	var tr trace
 	tr.leftAt = -1
@@ -268,12 +276,34 @@ func runProbe(c *mc.Ctx, br *o4h.Bridge, sf base.ServerFactory, blob []byte, d d
 				cw2.Write(blobK)
 				buf := make([]byte, 9000)
 				cw2.Read(buf)
+				if preTraffic {
+					junk := make([]byte, len(blobK))
+					for i := range junk {
+						junk[i] = byte(i*11 + 3)
+					}
+					cw2.Write(junk)
+					cw2.CloseWrite()
+					for {
+						if _, err := cw2.Read(buf); err != nil {
+							break
+						}
+					}
+				}
 				cw2.Close()
 			})
 			conn, err := sf.WrapConn(sw2)
 			if err != nil {
 				fail(c, "setup", "replay-setup", "the genuine handshake was not accepted: %v", err)
 				return
+			}
+			if preTraffic {
+				// (not valid frames: Read consumes them and reports an error or the end)
+				buf := make([]byte, 4096)
+				for {
+					if _, err := conn.Read(buf); err != nil {
+						break
+					}
+				}
 			}
 			conn.Close()
 		}
@@ -452,7 +482,9 @@ func main() {
 									}
 								}
 								busyUnavailable = false
+								preTraffic = p.traffic
 								tr = runProbe(c, br, sf, blob, d, pre, pre2, forged)
+								preTraffic = false
 								if busyUnavailable {
 									c.Count("busy_bridge_probes_not_set_up", 1)
 									continue
